@@ -33,6 +33,11 @@ fn battery<Ty: EdgeType, S: BuildHasher>(g: &GraphMap<i32, i32, Ty, S>) -> Vec<S
     // edge_references must agree with all_edges
     let er: Vec<i64> = g.edge_references().flat_map(|e| vec![e.source() as i64, e.target() as i64, *e.weight() as i64]).collect();
     if er != trip(g.all_edges()) { v.push("edge-references-mismatch".into()); }
+    // the double-ended iterators: all_edges and nodes from the back are the forward lists reversed
+    let mut back: Vec<(i32, i32, i32)> = g.all_edges().rev().map(|(a, b, w)| (a, b, *w)).collect(); back.reverse();
+    if back != g.all_edges().map(|(a, b, w)| (a, b, *w)).collect::<Vec<_>>() { v.push("all-edges-from-the-back-mismatch".into()); }
+    let mut nback: Vec<i32> = g.nodes().rev().collect(); nback.reverse();
+    if nback != nodes { v.push("nodes-from-the-back-mismatch".into()); }
     if NodeIndexable::node_bound(g) != g.node_count() { v.push("node-bound-mismatch".into()); }
     // EdgeIndexable: the i-th edge of all_edges has index i, from_index gives its key back, edge_bound is the edge count
     if EdgeIndexable::edge_bound(g) != g.edge_count() { v.push("edge-bound-mismatch".into()); }
